@@ -149,7 +149,7 @@ func runTypes(c typesCase, r *pb.Rec) error {
 }
 
 func init() {
-	pb.Register("element_types", pb.Options{Base: 4000, Required: []string{"interface elements holding nil", "zero-size elements", "element type larger than 64 KiB"},
+	pb.Register("element_types", pb.Options{Twins: 3, Base: 4000, Required: []string{"interface elements holding nil", "zero-size elements", "element type larger than 64 KiB"},
 		Rule: "Ring and SyncRing instantiated with any, error (both holding nil values), *int, struct{}, a 328-byte struct, a 70 KB struct, [16384]float64, string and func(): <= 24 pushes/pops (for Ring also PushWithExpand) of four fixed values per type against a slice model (Push iff room, Pop the oldest value including stored nils, Len), final drain; non-trivial = at least 4 steps"},
 		genTypes, runTypes)
 }
